@@ -712,6 +712,28 @@ def try_branches_on(fn, poll_call):
             if "Break" in info["edges"]:
                 be = (c.target, info["edges"]["Break"])
         out.append({"call": c, "cont_edge": ce, "break_edge": be})
+    # the same decisions spelled as explicit matches: `match x { Ok(v) => .., Err(e) => .. }` on the value (or on the Ok
+    # payload of an outer Ok, and so on)
+    seen_sw = set()
+    for thr in (None, THROUGH_TRY):
+        for sw in switches_on_value_of(fn, poll_call, through=thr):
+            key = (sw["site"], )
+            if key in seen_sw:
+                continue
+            edges = sw["info"]["edges"]
+            if not all(p_ in ("Ready", "Ok", "Some", "Continue") for p_ in sw["path"]):
+                continue
+            if "Ok" in edges and "Err" in edges:
+                ce, be = (sw["site"].bb, edges["Ok"]), (sw["site"].bb, edges["Err"])
+            elif "Some" in edges and "None" in edges and sw["path"] and sw["path"][-1] in ("Ok", "Ready"):
+                ce, be = (sw["site"].bb, edges["Some"]), (sw["site"].bb, edges["None"])
+            else:
+                continue
+            # not the switch that belongs to a Try::branch already recorded
+            if any(b["call"] is not None and b["call"].target == sw["site"].bb for b in out):
+                continue
+            seen_sw.add(key)
+            out.append({"call": None, "cont_edge": ce, "break_edge": be, "switch": sw})
     return out
 
 
@@ -771,6 +793,29 @@ def ok_return_sites(fn):
     return out
 
 
+def guard_flag_inits(db):
+    """(armed_init, notify_init): the constant values ("true"/"false") the guard's two flags get in its constructor.
+    Rules speak of `the initial value` / `the other value`, never of true/false, so that a flag may be spelled either way
+    round (or as a two-variant enum, which the fact loader presents as a bool)."""
+    m = model(db)
+    g = m.guard_adt()
+    armed, notify = guard_flags(db)
+    inits = set()
+    for f in db.crate_fns("ractor"):
+        for site, s in f.aggregates(adt=g):
+            rv = s["rv"]
+            vals = dict(zip(rv["fields"], [f.value_consts(o) for o in rv["ops"]]))
+            a, n = vals.get(armed), vals.get(notify)
+            inits.add((a[0] if a and len(a) == 1 else None, n[0] if n and len(n) == 1 else None))
+    if len(inits) != 1 or None in list(inits)[0]:
+        raise AnchorLost("constant initial values of the guard flags: %s" % sorted(inits, key=str))
+    return list(inits)[0]
+
+
+def other_bool(v):
+    return "false" if v == "true" else "true"
+
+
 def place_ty(db, fn, p, depth=0):
     """type of a place that is a plain local or a captured upvar (`_1.f:i`) of a closure/coroutine"""
     l, proj = p
@@ -827,10 +872,15 @@ def flag_true_sites(fn, switch_site):
     if p is None:
         return None
     local = p[0]
-    # follow one copy
+    # follow copies and one negation (the caller decides what a negation means for it)
     ds = [d for d in fn.defs().get(local, []) if d[1] == "assign"]
-    if len(ds) == 1 and ds[0][2]["rv"]["k"] == "use" and op_place(ds[0][2]["rv"]["op"]) is not None:
-        local = op_place(ds[0][2]["rv"]["op"])[0]
+    for _ in range(3):
+        if len(ds) == 1 and ds[0][2]["rv"]["k"] == "use" and op_place(ds[0][2]["rv"]["op"]) is not None and not op_place(ds[0][2]["rv"]["op"])[1]:
+            local = op_place(ds[0][2]["rv"]["op"])[0]
+        elif len(ds) == 1 and ds[0][2]["rv"]["k"] == "un" and ds[0][2]["rv"]["op"] == "Not" and op_place(ds[0][2]["rv"]["a"]) is not None and not op_place(ds[0][2]["rv"]["a"])[1]:
+            local = op_place(ds[0][2]["rv"]["a"])[0]
+        else:
+            break
         ds = [d for d in fn.defs().get(local, []) if d[1] == "assign"]
     trues, falses = [], []
     for site, kind, s in ds:
@@ -845,18 +895,31 @@ def flag_true_sites(fn, switch_site):
 
 
 def edge_guards(fn, edge, target):
-    """target executes only if `edge` was taken: plain edge dominance, or dominance through a `matches!`-style flag"""
+    """target executes only if `edge` was taken: plain edge dominance, or dominance through a `matches!`-style flag (the edge
+    decides a bool that is tested later -- either polarity, possibly through one negation)"""
     if fn.edge_dominates(edge, target):
         return True
     for site, t in fn.switches():
         if t["dty"] != "bool":
             continue
-        te = fn.edge_of(site, "true")
-        if not (te and fn.edge_dominates(te, target)):
-            continue
         ft = flag_true_sites(fn, site)
-        if ft and ft[0] and all(fn.edge_dominates(edge, s) for s in ft[0]):
-            return True
+        if not ft:
+            continue
+        # is the switch's operand the flag itself or its negation?
+        p = op_place(t["discr"])
+        neg = False
+        if p is not None:
+            ds = [d for d in fn.defs().get(p[0], []) if d[1] == "assign"]
+            if len(ds) == 1 and ds[0][2]["rv"]["k"] == "un" and ds[0][2]["rv"]["op"] == "Not":
+                neg = True
+        for val, sites in (("true", ft[0]), ("false", ft[1])):
+            if not sites:
+                continue
+            e2 = fn.edge_of(site, other_bool(val) if neg else val)
+            if not (e2 and fn.edge_dominates(e2, target)):
+                continue
+            if all(fn.edge_dominates(edge, s_) for s_ in sites):
+                return True
     return False
 
 
